@@ -6,19 +6,28 @@ from . import core, rel
 
 
 def c01(tier, seed):
-    return rel.check_rel("C01", tier, seed, 48, 1500)
+    return rel.check_rel("C01", tier, seed, 100, 2000)
 
 
 def c10(tier, seed):
-    return rel.check_rel("C10", tier, seed, 48, 1500, vocab_choices=("syn", "bpe", "bpe"))
+    from . import corpus
+    gs = corpus.all_grammars()
+    # states in which the slicer must refuse (lazy lexemes next to greedy ones) get extra weight
+    lazy = [g for g in gs if g[1]["kind"] == "lark" and ("[lazy" in g[1]["text"] or "suffix=" in g[1]["text"])]
+    strs = [g for g in gs if g[1]["kind"] == "json"]
+    return rel.check_rel("C10", tier, seed, 240, 4000, grammars=gs + lazy * 6 + strs,
+                         vocab_choices=("syn", "bpe", "bpe", "lang"))
 
 
 def c11(tier, seed):
-    return rel.check_rel("C11", tier, seed, 56, 2000)
+    from . import corpus
+    # C11 quantifies over every grammar, so grammars outside the core fragment take part too
+    gs = corpus.all_grammars() + corpus.ext_grammars() * 3
+    return rel.check_rel("C11", tier, seed, 160, 3000, grammars=gs)
 
 
 def c12(tier, seed):
-    return rel.check_rel("C12", tier, seed, 56, 2000)
+    return rel.check_rel("C12", tier, seed, 130, 3000)
 
 
 CHECKS = {"C01": c01, "C10": c10, "C11": c11, "C12": c12}
